@@ -1141,6 +1141,7 @@ fn timer_two_waiters() {
                 loom::future::block_on(async {
                     Timer::deadline(&*t, d).await;
                     assert!(CLK.now() >= d, "C15: timer completed early");
+                    assert!(t.next_expiration() != Some(d), "C15: next_expiration() still reports the deadline of a timer future that has completed");
                 });
             })
         })
